@@ -189,6 +189,88 @@ def no_address_dependence(rep, prog, rule):
     rep.ok(rule, "kernel-scan", "", "%d calls scanned, %d align_to sites" % (scanned, n))
 
 
+def step_siblings(rep, prog, rule):
+    rep.rule(rule, "all implementations of ImageView::iter_rows_with_step (the trait default and the "
+             "overrides of the containers) derive the row index from the floating-point position in "
+             "the same way - all accumulate `y += step` and truncate y, or all compute "
+             "`start + step * i`: the two are equal in exact arithmetic but round differently, so a "
+             "mix makes Nearest pick different rows depending on the container that holds the "
+             "source")
+    forms = {}
+    for g in sorted(prog.fns.values(), key=lambda z: z.id):
+        if g.kind != "closure":
+            continue
+        parent = prog.fns.get(g.d.get("parent"))
+        if parent is None or (parent.d.get("method") or parent.name.rsplit("::", 1)[-1]) != "iter_rows_with_step":
+            continue
+        gs = Sym(g)
+        ups = g.d.get("upvars") or g.d.get("captures") or []
+        names = [u[0] for u in ups]
+        form = None
+        casts = _casts_of(g, gs)
+        cast_fields = set()
+        for e in casts:
+            e0 = e
+            while e0[0] == "cast":
+                e0 = e0[2]
+            if e0[0] == "field" and e0[1][0] == "param" and e0[1][1] == 1:
+                cast_fields.add(e0[2])
+        for b, blk in enumerate(g.blocks):
+            if blk["c"]:
+                continue
+            for j, st in enumerate(blk["s"]):
+                if st[0] == "a" and st[1] and st[1][0] == 1 and "*" in st[1][1:]:
+                    fs = [p for p in st[1][1:] if isinstance(p, list) and p[0] == "f"]
+                    if not fs:
+                        continue
+                    k = fs[0][1]
+                    e = gs.rvalue(st[2], b, (b, j))
+                    if e[0] == "ovf":
+                        e = e[1]
+                    me = ("field", ("param", 1, g.local_name(1)), k)
+                    if e[0] == "bin" and e[1] == "Add" and me in (e[2], e[3]) and k in cast_fields:
+                        form = "accumulate"
+        if form is None:
+            for e in casts:
+                s = fmt(e)
+                if "Mul" in s and "Add" in s:
+                    form = "indexed"
+        forms[parent.name] = (form, parent)
+    rep.floor(rule, "iter_rows_with_step implementations", len(forms), 2)
+    kinds = {f for f, _ in forms.values()}
+    for name, (form, parent) in sorted(forms.items()):
+        rep.touch(parent)
+        if form is None:
+            rep.unk(rule, name, parent.loc, "form of the row position not recognised")
+        elif len(kinds - {None}) > 1:
+            others = sorted(n for n, (f2, _) in forms.items() if f2 not in (None, form))
+            rep.bad(rule, name + "|mixed", parent.loc, "%s derives the row index by the `%s` form "
+                    "but %s by the other one: for a sampling position that falls on a row boundary "
+                    "the two round to different rows, so the same pixels give different Nearest "
+                    "results in different containers" % (name, form, ", ".join(others)))
+        else:
+            rep.ok(rule, name, parent.loc, "row position form: %s" % form)
+
+
+def _casts_of(g, gs):
+    out = []
+    for b, blk in enumerate(g.blocks):
+        if blk["c"]:
+            continue
+        for j, st in enumerate(blk["s"]):
+            if st[0] == "a" and st[2][0] == "cast" and st[2][1] == "FloatToInt":
+                out.append(gs.operand(st[2][2], (b, j)))
+    return out
+
+
+def _is_f64_upvar(g, k):
+    ups = g.d.get("upvars") or []
+    try:
+        return True if ups[k][0] in ("y", "pos", "position") else False
+    except (IndexError, TypeError):
+        return False
+
+
 def run(rep, tier):
     cfgs = ["x86"] if tier == "quick" else ["x86", "x86-rayon", "arm", "wasm"]
     for cfg, prog in programs(cfgs):
@@ -197,6 +279,7 @@ def run(rep, tier):
         rep.call(typed_image_rows, rep, prog, "C13.view-offsets")
         rep.call(index_rules.cropped_row_slices, rep, prog, "C13.view-offsets-cropped")
         rep.call(dispatch_pure, rep, prog, "C13.dispatch-pure")
+        rep.call(step_siblings, rep, prog, "C13.step-siblings")
         rep.call(no_address_dependence, rep, prog, "C13.no-address-dependence")
         rep.call(loadwidth.guard_adequacy, rep, prog, "C13.row-end", loadwidth.FLOOR.get(cfg, 50))
     if tier == "thorough":
